@@ -110,6 +110,7 @@ func build(c caseT) (*world, error) {
 		"x.tgt.zone.test. 300 IN A 192.0.2.82",
 		"mail.zone.test. 300 IN MX 10 www.zone.test.",
 		"x.ent.wild.zone.test. 300 IN A 192.0.2.84", // makes ent.wild.zone.test. an empty non-terminal
+		"host.wild.zone.test. 300 IN A 192.0.2.85",  // a name of its own next to the wildcard
 	)
 	w.qtype = dns.TypeA
 	switch c.QK {
@@ -127,6 +128,8 @@ func build(c caseT) (*world, error) {
 		w.qname = "x.d.zone.test."
 	case "ent":
 		w.qname = "ent.wild.zone.test."
+	case "whost":
+		w.qname = "host.wild.zone.test."
 	}
 	w.rogue = authkit.NewKey(zoneName, 0)
 	if c.Tamper["dnskey"] == "clonetag" && w.zone.Key0() != nil {
@@ -499,6 +502,28 @@ func (w *world) hookFor(pos, kind string, count *int) (*authkit.Server, func(*au
 				ex.Resp.Rcode = dns.RcodeNameError
 				ex.Resp.Answer = nil
 				ex.Resp.Ns = ns
+			case "wildforeign":
+				// the wildcard expansion replayed over a name that exists, "proved" by an unsigned NSEC of the
+				// PARENT zone spanning the whole child
+				if w.qname != "ent.wild.zone.test." && w.qname != "host.wild.zone.test." {
+					*count--
+					return
+				}
+				exp, _ := w.zone.Answer(dns.Question{Name: "zz.wild." + zoneName, Qtype: w.qtype, Qclass: dns.ClassINET}, true)
+				if exp == nil || len(exp.Answer) == 0 {
+					return
+				}
+				var ans []dns.RR
+				for _, rr := range exp.Answer {
+					cp := dns.Copy(rr)
+					cp.Header().Name = w.qname
+					ans = append(ans, cp)
+				}
+				ex.Resp.Rcode = dns.RcodeSuccess
+				ex.Resp.Answer = ans
+				ex.Resp.Ns = []dns.RR{
+					&dns.NSEC{Hdr: dns.RR_Header{Name: "evil.test.", Rrtype: dns.TypeNSEC, Class: dns.ClassINET, Ttl: 300}, NextDomain: "zzz.test.",
+						TypeBitMap: []uint16{dns.TypeNS, dns.TypeDS, dns.TypeRRSIG, dns.TypeNSEC}}}
 			case "wildrep":
 				// over an empty non-terminal: the zone's genuine wildcard expansion (as any name under
 				// wild.zone.test. that does not exist would get it) re-owned to the asked name, next to the
@@ -607,6 +632,8 @@ func effectiveAt(c caseT, pos string) bool {
 		return zoneSigned(c.Zone) && needsProof
 	case pos == "answer" && kind == "wildrep":
 		return zoneSigned(c.Zone) && c.QK == "ent"
+	case pos == "answer" && kind == "wildforeign":
+		return zoneSigned(c.Zone) && (c.QK == "ent" || c.QK == "whost")
 	case pos == "answer" && kind == "inject":
 		return zoneSigned(c.Zone) // unsigned zone: the foreign RRset is filtered (C07), the honest rest is served
 	case pos == "answer":
